@@ -1,2 +1,3 @@
 pub mod pipeline;
 pub mod props;
+pub mod world;
